@@ -445,6 +445,21 @@ def check(run, repo, world):
     # assembly
     run.rule("R-DT8-NONE", "result is msb*256+lsb under a clean/int guard "
              "for both bytes, None on every other path")
+    # the high byte's answer class reads 255 as the marker "MASK" (not an
+    # int), which is what lets the int test exclude a masked value
+    from ..seq import response_class_of
+    from ..front import ClassInfo
+    qcv = world.cls(COL + "QueryColourValue")
+    rc_ = response_class_of(world, qcv) if qcv is not None else None
+    run.ob("R-DT8-NONE", COL + "QueryColourValue#response-reads-MASK",
+           rc_ is not None and any(
+               isinstance(k_, ClassInfo) and k_.name == "NumericResponseMask"
+               for k_ in rc_.mro),
+           "QueryColourValue answers are interpreted by %s: a high byte of "
+           "255 (MASK) then reads as the integer 255 and 0xFFxx is returned "
+           "as a colour value" % (rc_.qname if rc_ else None),
+           where(repo.mod(qcv.mod), qcv.node) if qcv is not None
+           else where(mod, fn))
     n_r = check_rdisc(run, world, MOD, F, cfg, ys, mod)
     asm = _find_assembly(cfg, msb, lsb)
     run.ob("R-DT8-LANES", F + "#assembly", asm is not None,
